@@ -54,6 +54,19 @@ def first_primitive_call(path):
     return None
 
 
+def says_is_none(E, path, v):
+    """does the returned value of the path denote `v is None`, in any spelling: v.is_none(), !v.is_some(), or a
+    match that returns the constant fitting the variant known on the path"""
+    r = path.ret
+    if r == ('isv', v, 'None', OPTION) or r == ('un', 'Not', ('isv', v, 'Some', OPTION)):
+        return True
+    if r[0] == 'const':
+        k = E.variant_known(path.facts, v)
+        if k and k[0] == 'eq':
+            return (k[1] == 'None') == bool(r[1])
+    return False
+
+
 def _find_aggs(v, adt, out, depth=0):
     if not isinstance(v, tuple) or depth > 8:
         return
@@ -142,10 +155,10 @@ def run(C, R):
                 if adt == SHARED_STREAM:
                     ok = path.ret == ('init', (('P', 'self'), 'is_terminated'))
                 elif adt == CHANNEL_STREAM:
-                    ok = path.ret == ('isv', ('init', (('P', 'self'), 'channel')), 'None', OPTION)
+                    ok = says_is_none(E, path, ('init', (('P', 'self'), 'channel')))
                 else:
                     hp = handle_path(roles, adt)
-                    ok = hp is not None and path.ret == ('isv', ('init', (('P', 'self'),) + hp), 'None', OPTION)
+                    ok = hp is not None and says_is_none(E, path, ('init', (('P', 'self'),) + hp))
                 if ok and path.exit == 'return':
                     R.ok('C17.R2', fn['path'], {'is_terminated': fn['path'], 'returns': fmt_val(path.ret)})
                 else:
